@@ -1060,6 +1060,153 @@ def _run_restart_case(case: dict) -> Outcome:
 
 
 # ----------------------------------------------------------------------------------------------
+# layer "real-listener": AsyncTCPNetworkServer over the REAL asyncio listener sockets (loopback) on the virtual loop, with
+# accept() errors injected at generated call indices (EMFILE & co: the listener backs off for 100 ms; ECONNABORTED & co:
+# skipped) and lifecycle operations landing inside the back-off window.  A stopped server must serve again.
+
+
+def _make_accept_fault_loop(script: dict[int, int]) -> Any:
+    from ..vloop import VLoop
+
+    class AcceptFaultLoop(VLoop):
+        def __init__(self) -> None:
+            super().__init__()
+            self.accept_calls = 0
+            self.real_wait_s = 2.0
+
+        async def sock_accept(self, sock: Any) -> Any:
+            i = self.accept_calls
+            self.accept_calls += 1
+            err = script.get(i)
+            if err:
+                await asyncio.sleep(0)
+                raise OSError(err, os.strerror(err))
+            return await super().sock_accept(sock)
+
+    return AcceptFaultLoop
+
+
+@st.composite
+def st_real_listener_case(draw: st.DrawFn, tier: str) -> dict:
+    import errno as _errno
+
+    nerr = draw(st.integers(0, 3))
+    idx = draw(st.lists(st.integers(0, 6), min_size=nerr, max_size=nerr, unique=True))
+    errnos = [_errno.EMFILE, _errno.ENFILE, _errno.ENOBUFS, _errno.ECONNABORTED, _errno.EPROTO]
+    ops = []
+    for _ in range(draw(st.integers(1, 3))):
+        ops.append(("serve",))
+        for _ in range(draw(st.integers(0, 2))):
+            ops.append(draw(st.sampled_from([("connect",), ("connect",), ("wait", draw(st.sampled_from([0.0, 0.03, 0.05, 0.1, 0.25])))])))
+        ops.append(("shutdown", draw(st.sampled_from([0.0, 0.02, 0.05, 0.15]))))
+    ops.append(("serve",))
+    ops.append(("connect",))
+    return {"accept_errors": {str(i): draw(st.sampled_from(errnos)) for i in idx}, "ops": ops}
+
+
+def run_real_listener_case(case: dict) -> Outcome:
+    from easynetwork.lowlevel.api_async.backend._asyncio.backend import AsyncIOBackend
+    from easynetwork.protocol import StreamProtocol
+    from easynetwork.serializers import StringLineSerializer
+    from easynetwork.servers.async_tcp import AsyncTCPNetworkServer
+    from easynetwork.servers.handlers import AsyncStreamRequestHandler
+
+    from ..vloop import Deadlock
+
+    logging.disable(logging.CRITICAL)
+    script = {int(k): int(v) for k, v in case["accept_errors"].items()}
+    loop_cls = _make_accept_fault_loop(script)
+    socks: list[socket.socket] = []
+    result: dict[str, Any] = {"echoes": 0, "connects": 0, "restarts": 0}
+
+    class Echo(AsyncStreamRequestHandler):  # type: ignore[type-arg]
+        async def handle(self, client: Any) -> Any:
+            request = yield
+            await client.send_packet(request)
+
+    async def main() -> None:
+        loop = asyncio.get_running_loop()
+        srv = AsyncTCPNetworkServer("127.0.0.1", 0, StreamProtocol(StringLineSerializer()), Echo(), AsyncIOBackend())
+        serve_task: asyncio.Task | None = None
+        try:
+            for op in [tuple(o) for o in case["ops"]]:
+                if op[0] == "serve":
+                    if serve_task is not None and not serve_task.done():
+                        continue
+                    up = asyncio.Event()
+                    serve_task = asyncio.create_task(srv.serve_forever(is_up_event=up))
+                    waiter = asyncio.create_task(up.wait())
+                    done, _ = await asyncio.wait({serve_task, waiter}, return_when=asyncio.FIRST_COMPLETED)
+                    if serve_task in done:
+                        waiter.cancel()
+                        exc = serve_task.exception() if not serve_task.cancelled() else None
+                        raise Violation(
+                            "cannot-serve-again",
+                            f"serve_forever() #{result['restarts']} on a stopped (never closed) server ended at once: {exc!r}",
+                            restarts=result["restarts"],
+                        )
+                    result["restarts"] += 1
+                elif op[0] == "connect":
+                    if serve_task is None or serve_task.done():
+                        continue
+                    addr = srv.get_addresses()[0]
+                    c = socket.create_connection((addr.host, addr.port), timeout=5)
+                    socks.append(c)
+                    c.setblocking(False)
+                    msg = f"hello-{result['connects']}\n".encode()
+                    result["connects"] += 1
+                    c.send(msg)
+                    got = b""
+                    # accept() may be backing off (100 ms per capacity error): allow a few virtual seconds
+                    for _ in range(400):
+                        try:
+                            data = c.recv(100)
+                        except BlockingIOError:
+                            data = None
+                        if data:
+                            got += data
+                            if got.endswith(b"\n"):
+                                break
+                        if serve_task.done():
+                            break
+                        await asyncio.sleep(0.01)
+                    if serve_task.done() and not serve_task.cancelled() and serve_task.exception() is not None:
+                        raise Violation("server-died", f"serve_forever() died while a client was connecting: {serve_task.exception()!r}")
+                    if got != msg:
+                        raise Violation("client-not-served", f"client #{result['connects'] - 1} sent {msg!r} and received {got!r} within 4 virtual seconds (accept errors {script})")
+                    result["echoes"] += 1
+                    c.close()
+                elif op[0] == "wait":
+                    await asyncio.sleep(op[1])
+                elif op[0] == "shutdown":
+                    await asyncio.sleep(op[1])
+                    if serve_task is not None:
+                        await srv.shutdown()
+                        await asyncio.wait({serve_task})
+                        if not serve_task.cancelled() and serve_task.exception() is not None:
+                            raise Violation("server-died", f"serve_forever() ended with {serve_task.exception()!r} after shutdown()")
+        finally:
+            if serve_task is not None and not serve_task.done():
+                await srv.shutdown()
+                await asyncio.wait({serve_task})
+            await srv.server_close()
+            for c in socks:
+                c.close()
+
+    runner = asyncio.Runner(loop_factory=loop_cls)
+    try:
+        with runner:
+            runner.run(main())
+    except Deadlock as exc:
+        raise Violation("hang", f"real-listener history did not finish: {exc}") from exc
+    nerr = len(script)
+    return Outcome(
+        nontrivial=result["restarts"] >= 2 and result["echoes"] >= 1,
+        classes=("real-listener", f"accept-errors-{nerr}", f"restarts-{min(result['restarts'], 4)}", f"echoes-{min(result['echoes'], 4)}"),
+    )
+
+
+# ----------------------------------------------------------------------------------------------
 
 CHECK = Check(
     id="C18",
@@ -1076,10 +1223,12 @@ CHECK = Check(
         Layer("async", st_async_case, run_async_case, {"quick": 3000, "thorough": 20000}),
         Layer("standalone", st_standalone_case, run_standalone_case, {"quick": 40, "thorough": 200}, case_timeout_s=400.0),
         Layer("restart-race", st_restart_case, run_restart_case, {"quick": 40, "thorough": 80}, case_timeout_s=400.0, shards=8),
+        Layer("real-listener", st_real_listener_case, run_real_listener_case, {"quick": 600, "thorough": 4000}),
     ],
     assumptions=[
         "async layer: listeners are in-memory objects handed out by a backend subclass; everything above them (server, task groups, cancel scopes, locks) is the unmodified library on the real asyncio backend, on a virtual clock",
         "standalone layer: real threads; the interleaving is not owned by the harness, the oracle only uses interval-order invariants that hold under every interleaving; a hang counts only if it reproduces in three consecutive runs, otherwise the case is inconclusive",
+        "real-listener layer: real loopback listener sockets of the asyncio backend on the virtual loop (real fds are polled; time is virtual), accept() failures injected by overriding the loop's sock_accept at generated call indices",
         "restart-race layer: the standalone server's own RLocks are replaced (through the module global `threading` of lowlevel/_lock.py, during construction only) by locks that sleep at generated acquisition indices; real threads, wall-clock watchdog of 20 s per step",
         "'shutdown returns only after serving stopped' is judged on exact stamps in the async layer and on an is_serving() sample taken by the shutdown caller in the standalone layer",
         "a serve_forever that overlaps another serve_forever and starts after a completed server_close may be refused with ServerAlreadyRunning or ServerClosedError",
